@@ -3,7 +3,8 @@
 (* equality with the code-shaped ExpectedIn / ExpectedOut (drift) on outcomes *)
 (* recorded from real typed tools served by a real mcp.Server to a real       *)
 (* mcp.Client.  One observation line = one tools/call:                        *)
-(*   input  : c = [kind, vr, ty, cache, args], o = [ran, seen, isError, proto]*)
+(*   input  : c = [kind in|xin|rin|sin, vr, ty, cache, args],                *)
+(*            o = [ran, seen, isError, proto]                                 *)
 (*   output : c = [kind, sid, okind, cache, out, nilform, content],           *)
 (*            o = [ran, isError, proto, hasSc, sc, texts]                     *)
 (* JSON values are the tagged pairs of TypedToolDefs.                         *)
